@@ -415,12 +415,13 @@ def load_from_source(
             source = _source = new_bytes
             source_was_open = False
         if rdf_format is None:
+            # readline() returns b'' at the end of the stream: an empty or blank document has no first line
             line: Union[bytes, None] = _source.readline()
-            line = None if line is None else line.lstrip()
+            line = None if not line else line.lstrip()
             line_len: int = len(line) if line is not None else 0
             while line is not None and line_len == 0:
                 line = _source.readline()
-                line = None if line is None else line.lstrip()
+                line = None if not line else line.lstrip()
                 line_len = len(line) if line is not None else 0
             if line is not None:
                 if line_len > 15:
